@@ -137,4 +137,56 @@ def _parent_contract(dim):
     )
 
 
-CONTRACTS = [hmesh_refine] + [_children_contract(d) for d in (1, 2, 3)] + [_parent_contract(d) for d in (1, 2, 3)]
+# ---- admissibility marking (finite disparity): HSpace._mark_recursive ------------------------------------------------------
+# Nbh(l, S, truncate) is the (uninterpreted) neighbourhood operator of _cell_neighborhood; the marks are CLOSED at level l
+# when Nbh(l, marked[l]) is contained in marked[l - d].  refine() calls _mark_recursive(l) for ascending l; each call
+# extends closure from "all levels below l" to "all levels up to l" (Bracco/Giannelli/Vazquez: this closure is what bounds
+# the level disparity).  The recursion must descend by exactly d: the level it touches is the only one whose closure it broke.
+
+_SetCell = z3.SetSort(Cell)
+Nbh = z3.Function('Nbh', z3.IntSort(), _SetCell, z3.BoolSort(), _SetCell)
+
+
+def _nbh_spec(ex, st, call, l, cells, truncate=False, **k):
+    sv = ex.as_set(st, cells, call)
+    if sv is None:
+        raise OutOfSubset('_cell_neighborhood called with a non-set')
+    d = st.heap[st.env['self'].id].attrs['disparity']
+    tr = truncate if z3.is_expr(truncate) else z3.BoolVal(bool(truncate))
+    return VSetVal(z3.If(to_z3(l) - to_z3(d) < 0, z3.EmptySet(Cell), Nbh(to_z3(l), sv[0], tr)), Cell)
+
+
+def _closed(M, lv, d, tr):
+    return Implies(lv - d >= 0, z3.IsSubset(Nbh(lv, M[lv], tr), M[lv - d]))
+
+
+def _mark_req(s):
+    d, M = s.self.disparity, s.marked
+    return [d >= 1, 0 <= s.l, s.l < M.len,
+            ForAll('k', lambda k: Implies(And(0 <= k, k < s.l), _closed(M, k, d, s.truncate)))]
+
+
+def _mark_post(s):
+    d, M, M0 = s.self.disparity, s.marked, s.old.marked
+    return [('closed-up-to-l', ForAll('k', lambda k: Implies(And(0 <= k, k <= s.l), _closed(M, k, d, s.truncate)))),
+            ('length', M.len == M0.len),
+            ('only-grows', ForAll('k', lambda k: Implies(And(0 <= k, k < M.len), z3.IsSubset(M0[k], M[k])))),
+            ('levels-above-l-minus-d-unchanged', ForAll('k', lambda k: Implies(And(k > s.l - d, k < M.len), M[k] == M0[k])))]
+
+
+mark_recursive = Contract(
+    F, 'HSpace._mark_recursive',
+    params={'self': Obj(disparity=Int(1)), 'l': Int(0), 'marked': SetList(Cell), 'truncate': Bool()},
+    requires=_mark_req,
+    modifies=('marked',),
+    callees={'self._cell_neighborhood': _nbh_spec},
+    ensures=_mark_post,
+    options={'timeout_ms': 60000, 'no_return_ok': True},
+    notes=['marked: total map level -> set of cells (absent key = empty set); _cell_neighborhood is replaced by the uninterpreted operator Nbh '
+           '(empty below level d, as its first branch states); the recursive call is checked against this same contract (partial correctness; '
+           'termination: the level strictly decreases because d >= 1)'],
+)
+mark_recursive.callees['self._mark_recursive'] = mark_recursive
+
+
+CONTRACTS = [hmesh_refine, mark_recursive] + [_children_contract(d) for d in (1, 2, 3)] + [_parent_contract(d) for d in (1, 2, 3)]
